@@ -18,8 +18,10 @@ LEVEL_TEXT = ("Theorems in coq/Props/C14.v over Model/Linear.v (chain detection 
               "the merged segment of every returned path (name, sequence, LN, error class) and the whole graph after "
               "merge_linear_paths() (merged segments with their tags, re-attached dovetails, cascade over the members; "
               "merge_path on the reference semantics of the graph) are compared with the model inside Coq. "
-              "PARTIAL: maximality of the chains, re-attachment of the outward dovetails, untouched rest, preserved components and "
-              "idempotence are decided per generated graph by the independent oracle (spec_linear.py), not proved.")
+              "Every segment that is not a member of the merged chain is in the graph afterwards as it was "
+              "(Proofs/MergeFrameP.v: a segment never depends on another line). "
+              "PARTIAL: maximality of the chains, re-attachment of the outward dovetails, the other untouched lines, preserved "
+              "components and idempotence are decided per generated graph by the independent oracle (spec_linear.py), not proved.")
 RULE = ("GFA1 graphs of 3-9 segments built from 1-3 chain blueprints with mixed orientations and link directions, closed into "
         "cycles, with branching and dead-end junctions, extra random links, containments, hairpins; sequences or placeholders "
         "with LN. Non-trivial: at least one chain of two or more segments.")
